@@ -638,17 +638,16 @@ impl GRLParser {
         let trimmed = when_clause.trim();
 
         // Strip outer parentheses if they exist
-        let clause = if trimmed.starts_with('(') && trimmed.ends_with(')') {
+        if trimmed.starts_with('(') && trimmed.ends_with(')') {
             // Check if these are the outermost parentheses
             let inner = &trimmed[1..trimmed.len() - 1];
             if self.is_balanced_parentheses(inner) {
-                inner
-            } else {
-                trimmed
+                // The first '(' closes at the last ')': the clause IS the inner clause
+                // (parsed from the top, so that `((a && b))` and `( !a )` work too)
+                return self.parse_when_clause(inner);
             }
-        } else {
-            trimmed
-        };
+        }
+        let clause = trimmed;
 
         // Parse OR at the top level (lowest precedence)
         if let Some(parts) = self.split_logical_operator(clause, "||") {
@@ -686,8 +685,20 @@ impl GRLParser {
 
     fn is_balanced_parentheses(&self, text: &str) -> bool {
         let mut count = 0;
+        let mut in_quotes = false;
+        let mut quote_char = ' ';
         for ch in text.chars() {
             match ch {
+                // String literals are opaque: a parenthesis inside one does not count
+                _ if in_quotes => {
+                    if ch == quote_char {
+                        in_quotes = false;
+                    }
+                }
+                '"' | '\'' => {
+                    in_quotes = true;
+                    quote_char = ch;
+                }
                 '(' => count += 1,
                 ')' => {
                     count -= 1;
@@ -705,10 +716,24 @@ impl GRLParser {
         let mut parts = Vec::new();
         let mut current_part = String::new();
         let mut paren_count = 0;
+        let mut in_quotes = false;
+        let mut quote_char = ' ';
         let mut chars = clause.chars().peekable();
 
         while let Some(ch) = chars.next() {
             match ch {
+                // String literals are opaque: no operator and no parenthesis inside one
+                _ if in_quotes => {
+                    if ch == quote_char {
+                        in_quotes = false;
+                    }
+                    current_part.push(ch);
+                }
+                '"' | '\'' => {
+                    in_quotes = true;
+                    quote_char = ch;
+                    current_part.push(ch);
+                }
                 '(' => {
                     paren_count += 1;
                     current_part.push(ch);
